@@ -69,6 +69,11 @@ def gen_bool(rng, depth):
         return ("path", rng.choice(BOOL_ATTRS)) if rng.random() < 0.8 else ("bool", rng.random() < 0.5)
     if r < 0.55:
         op = rng.choice(CMP)
+        if rng.random() < 0.07:
+            # two comparisons in a row without parentheses (accepted by the validator: a truth value counts as a number
+            # there): operators of equal rank associate to the left, `0 < x < 10` is `(0 < x) < 10`
+            op2 = rng.choice(["<", "<=", ">", ">="])
+            return ("bin", op2, ("bin", rng.choice(["<", "<=", ">", ">="]), gen_num(rng, 0), gen_num(rng, 0)), gen_num(rng, 0))
         if op in ("==", "!=") and rng.random() < 0.3:
             return ("bin", op, gen_bool(rng, 0), gen_bool(rng, 0))
         return ("bin", op, gen_num(rng, depth - 1), gen_num(rng, depth - 1))
@@ -286,6 +291,12 @@ def program_for(text, kind):
         return (HDR + "Task productionTask\n    Parallel\n        t\n            In\n                R\n                    " + lit +
                 "\n        t\n            In\n                R\n                    " + lit +
                 "\nEnd\nTask t\n    In\n        r: R\n    Condition\n        " + text + "\n    Passed\n        Yes\n    Failed\n        No\nEnd\n")
+    if kind == "par2w":
+        # the same with a while loop: the guard object is shared by both instances of the task, each decides on ITS value
+        lit = '{"n": 1, "k": 1, "b": true, "m": {"n": 1, "b": true}}'
+        return (HDR + "Task productionTask\n    Parallel\n        t\n            In\n                R\n                    " + lit +
+                "\n        t\n            In\n                R\n                    " + lit +
+                "\nEnd\nTask t\n    In\n        r: R\n    Loop While " + text + "\n        Yes\n    No\nEnd\n")
     if kind == "cond":
         return HDR + "Task productionTask\n    G\n        Out\n            r: R\n    Condition\n        " + text + "\n    Passed\n        Yes\n    Failed\n        No\nEnd\n"
     return HDR + "Task productionTask\n    G\n        Out\n            r: R\n    Loop While " + text + "\n        Yes\n    No\nEnd\n"
@@ -313,7 +324,7 @@ def job_expr(args):
             if e[0] in ("path", "bool"):
                 continue
             break
-        kind = rng.choice(["cond", "cond", "while", "par2"])
+        kind = rng.choice(["cond", "cond", "while", "par2", "par2w"])
         tight = rng.random() < 0.3
         texts = [("min", print_min(e, tight)), ("full", print_full(e))]
         out = {"seed": seed, "ast": e, "kind": kind, "k10": k10_shape(e), "variants": []}
@@ -336,7 +347,7 @@ def job_expr(args):
             rec["valid"] = valid
             rec["out"] = buf.getvalue()[:300]
             if valid:
-                st = process.tasks["t"].statements[0] if kind == "par2" else process.tasks["productionTask"].statements[1]
+                st = process.tasks["t"].statements[0] if kind in ("par2", "par2w") else process.tasks["productionTask"].statements[1]
                 rec["tree"] = tree_json(st.expression)
                 toks = expr_tokens(text)
                 n_atoms = 0
@@ -351,7 +362,7 @@ def job_expr(args):
                 if label == "min":
                     rec["surface"] = explicit_tree(e, tight, [0])
                 decs = []
-                if kind == "par2":
+                if kind in ("par2", "par2w"):
                     for i, v in enumerate(vals):
                         decs.append(decide_par2(impl, prog, v, vals[(i + 1) % len(vals)]))
                 else:
@@ -360,7 +371,7 @@ def job_expr(args):
                 rec["decisions"] = decs
             out["variants"].append(rec)
         out["vals"] = [val_json(v) for v in vals]
-        if kind == "par2":
+        if kind in ("par2", "par2w"):
             out["expected"] = [[bool(denote(e, v)), bool(denote(e, vals[(i + 1) % len(vals)]))] for i, v in enumerate(vals)]
         else:
             out["expected"] = [bool(denote(e, v)) for v in vals]
@@ -826,7 +837,7 @@ def _run_c13(ctx, pool, res):
             if "error" in resp:
                 disagreements.append((v["text"], "model error " + resp["error"]))
                 continue
-            if r["kind"] != "par2" and resp.get("decisions") != [d if isinstance(d, bool) else None for d in v["decisions"]]:
+            if r["kind"] not in ("par2", "par2w") and resp.get("decisions") != [d if isinstance(d, bool) else None for d in v["decisions"]]:
                 disagreements.append((v["text"], "decisions implementation %r / model %r" % (v["decisions"], resp.get("decisions"))))
             elif resp.get("parsed") != v["indexed"]:
                 disagreements.append((v["text"], "tree: visitor %s / model parser %s" % (json.dumps(v["indexed"])[:200], json.dumps(resp.get("parsed"))[:200])))
